@@ -64,7 +64,15 @@ def make_case(r):
         else:
             rules.append(realrun.rule(f'has:m{a} count:m{b}>=2 ! &', 0, '',
                                       '', fault=fault))
-    rules.append(realrun.rule(f'count:m{keep}>=2', 1, 'bug\n', 'err\n'))
+    golden_kill = fault in ('sleep', 'spin1') and r.random() < 0.35
+    if golden_kill:
+        # the behaviour to preserve is "the command dies of SIGKILL" (an
+        # out-of-memory kill, a watchdog of its own): a candidate that ddSMT
+        # itself kills at the time limit is something else
+        rules.append(realrun.rule(f'count:m{keep}>=2', 0, '', '',
+                                  fault='kill'))
+    else:
+        rules.append(realrun.rule(f'count:m{keep}>=2', 1, 'bug\n', 'err\n'))
     rules.append(realrun.rule('all', 0, 'ok\n', ''))
     strat = r.choice(workload.STRATEGIES)
     j = r.choice([1, 1, 4])
@@ -87,14 +95,15 @@ def make_case(r):
         # independently of each other)
         memout = 4096
         opts += ['--memout', '4096']
-    if r.random() < 0.3:
+    if r.random() < 0.3 or golden_kill:
         # exit code only: a timed-out run has no exit code at all
         opts += ['--ignore-output']
     # keep runs short: restrict the mutators
     opts += ['--disable-all', '--erase-node', '--constants',
              '--substitute-children']
     cc_rules = None
-    if fault in ('sleep', 'spin1', 'forksleep') and r.random() < 0.5:
+    if fault in ('sleep', 'spin1', 'forksleep') and r.random() < 0.5 \
+            and not golden_kill:
         # the *cross-check* command is the one that misbehaves; its time
         # limit is explicit or automatic (1.5 x (its golden run + 1 s))
         cc_rules = [x for x in rules if 'fault=' in x] + [
@@ -106,6 +115,7 @@ def make_case(r):
             'fault_conditions': used, 'strategy': strat, 'jobs': j,
             'timeout': tmo, 'memout': memout}
     desc['cc'] = cc_rules is not None
+    desc['golden_fault'] = 'kill' if golden_kill else None
     return text, rules, opts, limit, desc
 
 
@@ -454,7 +464,7 @@ def shard(args):
                                     cc_spec=desc.get('cc_rules'),
                                     launcher={'monitors': ['check', 'exec']},
                                     timeout=120 if desc.get('cc') else 240)
-            judge(res, run, limit, desc)
+            judge(res, run, limit, desc, golden_fault=desc.get("golden_fault"))
             res.count('runs')
             if any(e.get('fault') for e in run.cmdlog[1:]):
                 res.add_distinct(common.digest(repr((text, rules, opts))))
